@@ -28,10 +28,11 @@ pub fn components_mac() -> serde_json::Value {
     serde_json::json!({
         "real": [
             "lorawan_device::async_device::Device", "lorawan_device::nb_device::Device", "lorawan_device::mac::*",
-            "lorawan_device::region::*", "lorawan (frame codec, DefaultCrypto AES/CMAC)"
+            "lorawan_device::region::*", "lorawan (frame codec, DefaultCrypto AES/CMAC)",
+            "full-stack runs only (WorldCfg.phy, async front-ends): lora_phy::lorawan_radio::LorawanRadio, lora_phy::LoRa, lora_phy::sx126x::Sx126x (Sx1261/Sx1262/Stm32wl) or lora_phy::sx127x::Sx127x (Sx1272/Sx1276) under the MAC"
         ],
         "stub": [
-            "radio (SimRadio: both PhyRxTx traits, results decided by the script)", "timer / application event loop (simulated clock)",
+            "radio (SimRadio: both PhyRxTx traits, results decided by the script); in full-stack runs instead: the radio chip (physim ChipModel126x / ChipModel127x), SPI bus, BUSY / IRQ / reset lines and delay (physim SimSpi / SimIv / SimDelay)", "timer / application event loop (simulated clock)",
             "device RNG (SimRng: per-operation seeded stream, draw budget)", "network server / join server / gateway (RefNs over the independent reference codec)",
             "ether and adversary (script: loss, duplication, reordering, corruption, foreign traffic)", "persistent storage (serde_json string)"
         ]
